@@ -55,8 +55,8 @@ fn c_idea_add() {
 }
 
 // mul_inv on all 2^16 inputs, executed concretely (16 chunks of 4096; CBMC's symbolic execution needs ~0.15 s
-// per input, hence the thorough tier): equals the Fermat inverse of the reference, is an inverse for the real
-// mul (two-sided by l_idea_mul_unit: mul commutes), returns without overflow or division by zero.
+// per input, hence the thorough tier): equals the Fermat inverse of the reference, is a two-sided inverse for the
+// real mul, returns without overflow or division by zero.
 macro_rules! mul_inv_chunk {
     ($name:ident, $c:expr) => {
         #[kani::proof]
@@ -67,7 +67,7 @@ macro_rules! mul_inv_chunk {
             while a < ($c + 1) * 4096 {
                 let i = c.mul_inv(a as u16);
                 assert!(i == bcref::idea::mul_inv(a as u16));
-                assert!(c.mul(a as u16, i) == 1);
+                assert!(c.mul(a as u16, i) == 1 && c.mul(i, a as u16) == 1);
                 a += 1;
             }
         }
@@ -344,15 +344,16 @@ fn c_idea_bytes_api() {
 }
 
 // ---------------------------------------------------------------- C01 round trip
-// mul(x, 1) == x and commutativity, symbolic; with associativity (l_idea_mul_assoc) and x_idea_mul_inv_* this
-// gives the axiom of `ufi::real_gmul`:  mul(mul(x, k), inv(k)) = mul(x, mul(k, inv(k))) = mul(x, 1) = x.
+// 1 is the unit of mul; with associativity (l_idea_mul_assoc) and x_idea_mul_inv_* (mul(k, inv k) == mul(inv k, k) == 1)
+// this gives the axiom of `ufi::real_gmul`:  mul(mul(x, k), k') = mul(x, mul(k, k')) = mul(x, 1) = x  whenever k, k' are
+// an inverse pair in either order.
 // @ob name=l_idea_mul_unit props=C01 kind=lemma fn=idea::Idea::mul timeout=600
 #[kani::proof]
 fn l_idea_mul_unit() {
     let c = any_idea();
-    let (a, b): (u16, u16) = (kani::any(), kani::any());
+    let a: u16 = kani::any();
     assert!(c.mul(a, 1) == a);
-    assert!(c.mul(a, b) == c.mul(b, a));
+    assert!(c.mul(1, a) == a);
 }
 
 // associativity of the real mul on all 2^48 triples
